@@ -16,8 +16,8 @@ class AlignStream(Stream):
     name = 'align'
     prelude = pl.ALIGN_CHECK_C15
     shard = 250
-    weights = dict(realistic=2, blocks=4, dense=4, boundary=1, folding=2, fragment=1)
-    quick_n, thorough_n = 4000, 60000
+    weights = dict(realistic=2, blocks=4, dense=9, boundary=1, folding=3, fragment=1)
+    quick_n, thorough_n = 5000, 90000
 
     def gen(self, rng, tier):
         return pl.gen_mix(rng, self.quick_n if tier == 'quick' else self.thorough_n, self.weights)
